@@ -312,6 +312,10 @@ public:
 
     std::vector<T> const& channel_weights() const { return weights_; }
 
+    // (the rest of the interface of the library's own multi-channel checkpoint)
+    T beta() const { return T(); }
+    T min_weight() const { return T(); }
+
 private:
     std::vector<T> weights_;
 };
